@@ -1005,7 +1005,7 @@ def run(chk):
     chk.explanation = ('table agreement: formatter decimal mark, parser effective decimal separator and a reference table '
                        'agree for the ten cultures; percentage wiring through the factory decision table; extractor type / '
                        'tag dispatch wiring (all evaluated from the AST and the resource constants)')
-    chk.rule('C03.culture', 'the CultureInfo wired into a registration\'s parser configuration has the registered culture code', floor=20)
+    chk.rule('C03.culture', 'the CultureInfo wired into a registration\'s parser configuration has the registered culture code', floor=20, control=True)
     chk.rule('C03.marks.decimal', 'formatter decimal mark == parser effective decimal separator', floor=8, control=True)
     chk.rule('C03.marks.reference', 'formatter decimal mark == reference decimal mark of the culture', floor=8, control=True)
     chk.rule('C03.marks.distinct', 'parser effective decimal and grouping separators differ', floor=8, control=True)
@@ -1128,6 +1128,15 @@ def run(chk):
         if fth is not None and fth != eff_non:
             chk.observe('culture %s: formatter thousands mark %s differs from parser grouping separator %s (dead code in '
                         'format(); not armed)' % (code, show(fth), show(eff_non)))
+    # control: the detector on a registration that forgets the explicit CultureInfo (default culture of the class is used)
+    for nr in regs:
+        if nr.config_call.args or nr.config_call.keywords:
+            bare = ast.Call(func=nr.config_call.func, args=[], keywords=[])
+            code, _c, how = culture_info_code(ev, nr.config_cls, bare, nr.reg.mod)
+            chk.control('C03.culture', how == 'default' and code != nr.reg.culture)
+            break
+    else:
+        chk.control('C03.culture', culture_info_code(ev, regs[0].config_cls, regs[0].config_call, regs[0].reg.mod)[0] != 'xx-xx')
     cultures = sorted({k[0] for k in seen_cultures})
     missing = sorted(set(REFERENCE_DECIMAL) - set(cultures))
     if missing:
@@ -1273,3 +1282,109 @@ def run(chk):
     chk.extra['factory_table'] = {'%s x %s' % (k[0], k[1].rsplit('.', 1)[-1]): '%s supported=%s' % (v[0].name, v[1])
                                   for k, v in sorted(decided.items())}
     chk.exhaustive = True
+
+
+# ---------------------------------------------------------------------------------------------------------------
+# C03.signext (added by the lead after triage of recognize_number('minus 5 and then 6')): the sign word that
+# BaseNumberExtractor.extract searches in the prefix source[0:start] must be anchored at the end of that prefix,
+# otherwise an earlier sign word anywhere in the sentence is attached to the number (wrong value, wrong span)
+
+def rule_signext(chk):
+    from .. import rx as _rx
+    from ..consteval import Resources
+    idx = get_index()
+    R = Resources(idx)
+    chk.rule('C03.signext', 'the negative-sign pattern searched in the prefix before a number is end-anchored', floor=4, control=True)
+    base = idx.cls('recognizers_number.number.extractors.BaseNumberExtractor')
+    fn = base.methods.get('extract')
+    if fn is None:
+        raise AnalysisError('anchor vanished: BaseNumberExtractor.extract')
+    # the search must be over a prefix slice source[0:start] (else the rule below is not the right obligation)
+    prefix_search = False
+    for n in ast.walk(fn):
+        if isinstance(n, ast.Call) and isinstance(n.func, ast.Attribute) and n.func.attr == 'search' and len(n.args) == 2 \
+                and '_negative_number_terms' in ast.unparse(n.args[0]):
+            a = n.args[1]
+            if isinstance(a, ast.Subscript) and isinstance(a.slice, ast.Slice) and a.slice.upper is not None \
+                    and (a.slice.lower is None or (isinstance(a.slice.lower, ast.Constant) and a.slice.lower.value == 0)):
+                prefix_search = True
+    if not prefix_search:
+        raise AnalysisError('BaseNumberExtractor.extract: sign search over the prefix source[0:start] not recognised')
+
+    def anchored(pattern):
+        try:
+            t = _rx.parse(pattern)
+        except _rx.RxError:
+            return None
+        items = t.items if t.kind == 'seq' else [t]
+        while items and items[-1].kind == 'flags':
+            items = items[:-1]
+        return bool(items) and items[-1].kind == 'anchor' and items[-1].c in ('$', '\\Z', '\\z')
+
+    def ev(mod, e):
+        if isinstance(e, ast.Constant) and isinstance(e.value, str):
+            return e.value
+        if isinstance(e, ast.BinOp) and isinstance(e.op, ast.Add):
+            a, b = ev(mod, e.left), ev(mod, e.right)
+            return None if a is None or b is None else a + b
+        if isinstance(e, ast.Attribute) and isinstance(e.value, ast.Name):
+            vals = R.by_name(mod, e.value.id)
+            if vals is not None and isinstance(vals.get(e.attr), str):
+                return vals[e.attr]
+        if isinstance(e, ast.JoinedStr):
+            out = ''
+            for p in e.values:
+                v = ev(mod, p.value if isinstance(p, ast.FormattedValue) else p)
+                if v is None:
+                    return None
+                out += v
+            return out
+        return None
+
+    seen = 0
+    for c in idx.subclasses(base):
+        if '_negative_number_terms' not in c.methods:
+            continue
+        prop = c.methods['_negative_number_terms']
+        rets = [n.value for n in ast.walk(prop) if isinstance(n, ast.Return) and n.value is not None]
+        if len(rets) != 1:
+            raise AnalysisError('%s._negative_number_terms: expected one return' % c.name)
+        r = rets[0]
+        if isinstance(r, ast.Constant) and r.value is None:
+            continue
+        if not (isinstance(r, ast.Attribute) and isinstance(r.value, ast.Name) and r.value.id == 'self'):
+            raise AnalysisError('%s._negative_number_terms: return shape not recognised' % c.name)
+        fld = r.attr
+        init = c.methods.get('__init__')
+        src = None
+        for n in ast.walk(init) if init else []:
+            if isinstance(n, ast.Assign) and len(n.targets) == 1 and isinstance(n.targets[0], ast.Attribute) \
+                    and n.targets[0].attr in (fld, fld.replace('_%s__' % c.name, '__')) and isinstance(n.targets[0].value, ast.Name):
+                src = n.value
+        if src is None:
+            raise AnalysisError('%s: assignment of %s not found' % (c.name, fld))
+        if isinstance(src, ast.Constant) and src.value is None:
+            continue
+        if isinstance(src, ast.Call) and src.args:
+            pat = ev(c.mod, src.args[0])
+        else:
+            pat = ev(c.mod, src)
+        if pat is None:
+            raise AnalysisError('%s: cannot evaluate the negative-sign pattern' % c.name)
+        a = anchored(pat)
+        if a is None:
+            raise AnalysisError('%s: negative-sign pattern not analysable: %r' % (c.name, pat))
+        seen += 1
+        chk.judge(a, 'C03.signext', c.mod.path, '%s._negative_number_terms' % c.name, 'anchored=%s' % a,
+                  '%s searches the sign word %r in the text before a number without anchoring it at the end of that text: '
+                  'a sign word anywhere earlier in the sentence is attached to the number (wrong value, span reaching back '
+                  'to it)' % (c.name, pat), prop.lineno)
+    chk.control('C03.signext', anchored('(?<negTerm>(minus|negative)\\s+)') is False and anchored('(minus\\s+)$') is True)
+
+
+_run_without_signext = run
+
+
+def run(chk):       # noqa: F811
+    _run_without_signext(chk)
+    rule_signext(chk)
